@@ -438,4 +438,199 @@ theorem hashedStream_verified (sha : Bytes → Bytes) (hs : Nat → List FileHas
               · exact hb2 b hb
           · simp [hsha] at herr
 
+/-! ### control events are transparent -/
+
+def controlCount (evs : List Ev) : Nat := (evs.filter Ev.isControl).length
+
+theorem passEv_no_control (cdn : Nat → Nat → Bytes) (dec : Nat → Bytes → Bytes) :
+    ∀ (plan : List Range) (evs : List Ev), controlCount evs = 0 →
+      (passEv cdn dec plan evs).2 = (match chunkRaw cdn dec plan with | .ok d => .data d | .error e => .fail e) := by
+  intro plan
+  induction plan with
+  | nil => intro evs _; simp [passEv, chunkRaw]
+  | cons r rest ih =>
+    intro evs h0
+    have hhead : evs.headD .serve = .serve := by
+      cases evs with
+      | nil => rfl
+      | cons e t =>
+        cases e <;> simp [controlCount, Ev.isControl] at h0 ⊢
+    have htail : controlCount evs.tail = 0 := by
+      cases evs with
+      | nil => rfl
+      | cons e t =>
+        cases e <;> simp [controlCount, Ev.isControl] at h0 ⊢
+        exact h0
+    rw [passEv, chunkRaw, hhead]
+    simp only
+    split
+    · rfl
+    · split
+      · rfl
+      · have := ih evs.tail htail
+        cases hp : passEv cdn dec rest evs.tail with
+        | mk evs' res =>
+          rw [hp] at this
+          simp only at this
+          cases hc : chunkRaw cdn dec rest with
+          | ok more => rw [hc] at this; simp only at this; subst this; rfl
+          | error e => rw [hc] at this; simp only at this; subst this; rfl
+
+/-- A pass either consumes no control event (and then behaves like the event-free pass), or stops at
+the first one, which it consumes. -/
+theorem passEv_control (cdn : Nat → Nat → Bytes) (dec : Nat → Bytes → Bytes) :
+    ∀ (plan : List Range) (evs : List Ev),
+      controlCount (passEv cdn dec plan evs).1 ≤ controlCount evs ∧
+      ((passEv cdn dec plan evs).2 = .restart → controlCount (passEv cdn dec plan evs).1 + 1 ≤ controlCount evs) := by
+  intro plan
+  induction plan with
+  | nil => intro evs; simp [passEv]
+  | cons r rest ih =>
+    intro evs
+    rw [passEv]
+    cases evs with
+    | nil =>
+      simp only [List.headD_nil, List.tail_nil]
+      split
+      · simp [controlCount]
+      · split
+        · simp [controlCount]
+        · have := ih []
+          cases hp : passEv cdn dec rest [] with
+          | mk evs' res =>
+            rw [hp] at this
+            cases res <;> simpa using this
+    | cons e t =>
+      cases e with
+      | reupload =>
+        have hc : controlCount (Ev.reupload :: t) = controlCount t + 1 := by
+          simp [controlCount, List.filter_cons, Ev.isControl]
+        simp only [List.headD_cons, List.tail_cons, hc]
+        omega
+      | tokenInvalid =>
+        have hc : controlCount (Ev.tokenInvalid :: t) = controlCount t + 1 := by
+          simp [controlCount, List.filter_cons, Ev.isControl]
+        simp only [List.headD_cons, List.tail_cons, hc]
+        omega
+      | tokenInvalidFile =>
+        have hc : controlCount (Ev.tokenInvalidFile :: t) = controlCount t + 1 := by
+          simp [controlCount, List.filter_cons, Ev.isControl]
+        simp only [List.headD_cons, List.tail_cons, hc]
+        omega
+      | serve =>
+        simp only [List.headD_cons, List.tail_cons]
+        have hc : controlCount (Ev.serve :: t) = controlCount t := by simp [controlCount, Ev.isControl]
+        rw [hc]
+        split
+        · simp
+        · split
+          · simp
+          · have := ih t
+            cases hp : passEv cdn dec rest t with
+            | mk evs' res =>
+              rw [hp] at this
+              cases res <;> simpa using this
+
+def rawPass (cdn : Nat → Nat → Bytes) (dec : Nat → Bytes → Bytes) (plan : List Range) : Pass :=
+  match chunkRaw cdn dec plan with
+  | .ok d => .data d
+  | .error e => .fail e
+
+/-- Shape of a pass: it restarts, falls back to the master (only on a `tokenInvalidFile` event), or
+returns exactly what the event-free pass returns; the unconsumed events are a suffix of the script. -/
+theorem passEv_shape (cdn : Nat → Nat → Bytes) (dec : Nat → Bytes → Bytes) :
+    ∀ (plan : List Range) (evs : List Ev),
+      ((passEv cdn dec plan evs).2 = .restart ∨
+       ((passEv cdn dec plan evs).2 = .master ∧ Ev.tokenInvalidFile ∈ evs) ∨
+       (passEv cdn dec plan evs).2 = rawPass cdn dec plan) ∧
+      (∀ e ∈ (passEv cdn dec plan evs).1, e ∈ evs) := by
+  intro plan
+  induction plan with
+  | nil => intro evs; simp [passEv, rawPass, chunkRaw]
+  | cons r rest ih =>
+    intro evs
+    have htl : ∀ e ∈ evs.tail, e ∈ evs := fun e he => List.mem_of_mem_tail he
+    rw [passEv]
+    cases hh : evs.headD .serve with
+    | reupload => exact ⟨Or.inl rfl, htl⟩
+    | tokenInvalid => exact ⟨Or.inl rfl, htl⟩
+    | tokenInvalidFile =>
+      refine ⟨Or.inr (Or.inl ⟨rfl, ?_⟩), htl⟩
+      cases evs with
+      | nil => simp at hh
+      | cons e t => simp only [List.headD_cons] at hh; subst hh; simp
+    | serve =>
+      simp only [rawPass, chunkRaw]
+      split
+      · exact ⟨Or.inr (Or.inr rfl), htl⟩
+      · split
+        · exact ⟨Or.inr (Or.inr rfl), htl⟩
+        · have := ih evs.tail
+          cases hp : passEv cdn dec rest evs.tail with
+          | mk evs' res =>
+            rw [hp] at this
+            simp only at this
+            obtain ⟨hres, hsuf⟩ := this
+            refine ⟨?_, fun e he => htl e (hsuf e (by cases res <;> simpa using he))⟩
+            rcases hres with h | ⟨h, hm⟩ | h
+            · subst h; exact Or.inl rfl
+            · subst h; exact Or.inr (Or.inl ⟨rfl, htl _ hm⟩)
+            · subst h
+              right; right
+              simp only [rawPass]
+              cases chunkRaw cdn dec rest <;> rfl
+
+/-- Token refreshes and reuploads are transparent: as long as fewer control events occur than the
+attempts the loop has left, the chunk is exactly what it would be without any event. -/
+theorem chunkLoop_transparent (cdn : Nat → Nat → Bytes) (dec : Nat → Bytes → Bytes) (md : Bytes) (plan : List Range) :
+    ∀ (n : Nat) (evs : List Ev), Ev.tokenInvalidFile ∉ evs → controlCount evs < n →
+      chunkLoop cdn dec md plan n evs = chunkRaw cdn dec plan := by
+  intro n
+  induction n with
+  | zero => intro evs _ h; omega
+  | succ n ih =>
+    intro evs hnf hc
+    rw [chunkLoop]
+    have hs := passEv_shape cdn dec plan evs
+    have hcc := passEv_control cdn dec plan evs
+    cases hp : passEv cdn dec plan evs with
+    | mk evs' res =>
+      rw [hp] at hs hcc
+      simp only at hs hcc
+      obtain ⟨hres, hsuf⟩ := hs
+      rcases hres with h | ⟨_, hm⟩ | h
+      · subst h
+        simp only
+        exact ih evs' (fun hm => hnf (hsuf _ hm)) (by have := hcc.2 rfl; omega)
+      · exact absurd hm hnf
+      · subst h
+        simp only [rawPass]
+        cases chunkRaw cdn dec plan <;> rfl
+
+/-- When the attempts are used up by control events the chunk fails with the state-loop error (it never
+returns wrong data). -/
+theorem chunkLoop_sound (cdn : Nat → Nat → Bytes) (dec : Nat → Bytes → Bytes) (md : Bytes) (plan : List Range) :
+    ∀ (n : Nat) (evs : List Ev) (d : Bytes), Ev.tokenInvalidFile ∉ evs →
+      chunkLoop cdn dec md plan n evs = .ok d → chunkRaw cdn dec plan = .ok d := by
+  intro n
+  induction n with
+  | zero => intro evs d _ h; simp [chunkLoop] at h
+  | succ n ih =>
+    intro evs d hnf h
+    rw [chunkLoop] at h
+    have hs := passEv_shape cdn dec plan evs
+    cases hp : passEv cdn dec plan evs with
+    | mk evs' res =>
+      rw [hp] at hs h
+      simp only at hs h
+      obtain ⟨hres, hsuf⟩ := hs
+      rcases hres with h1 | ⟨_, hm⟩ | h1
+      · subst h1; exact ih evs' d (fun hm => hnf (hsuf _ hm)) h
+      · exact absurd hm hnf
+      · subst h1
+        simp only [rawPass] at h
+        cases hc : chunkRaw cdn dec plan with
+        | ok d' => rw [hc] at h; simp only [Except.ok.injEq] at h; rw [h]
+        | error e => rw [hc] at h; simp at h
+
 end TdModel.C34
